@@ -22,6 +22,24 @@ def indent(text: str, levels: int) -> str:
     return "\t" * levels + text + "\n"
 
 
+class OrderedSet(set):
+    """A set that is iterated in insertion order; plain sets of objects are
+    iterated by memory address, which differs from run to run"""
+
+    def __init__(self) -> None:
+        super().__init__()
+        self._ordered: list = []
+
+    def add(self, item) -> None:
+        if item not in self:
+            self._ordered.append(item)
+
+        super().add(item)
+
+    def __iter__(self):
+        return iter(self._ordered)
+
+
 @dataclasses.dataclass
 class EdgeLocation:
     """A helper class that maps top/bottom/side faces of an operation and corner indexes"""
